@@ -20,12 +20,14 @@ VARIABLES table, done
 vars == <<table, done>>
 
 Lc(i, s, r) == [id |-> i, start |-> s, res |-> r]
-\* all tables with ids 1..k (any subset may be missing), starts in Starts, resume links to smaller ids or 0
-Tables == UNION { { {Lc(i, st[i], rs[i]) : i \in present} :
-                      st \in [1..k -> Starts], rs \in {f \in [1..k -> 0..k] : \A i \in 1..k : f[i] < i}, present \in SUBSET (1..k) }
-                  : k \in 0..MaxLcs }
-
-Init == table \in Tables /\ done = FALSE
+\* all tables with ids 1..k (any subset may be missing), starts in Starts, resume links to smaller ids or 0; chosen step by step so
+\* that TLC enumerates the initial states without building one big set
+Init == /\ done = FALSE
+        /\ \E k \in 0..MaxLcs :
+             \E st \in [1..k -> Starts] :
+               \E rs \in {f \in [1..k -> 0..k] : \A i \in 1..k : f[i] < i} :
+                 \E present \in SUBSET (1..k) :
+                   table = {Lc(i, st[i], rs[i]) : i \in present}
 Next == ~done /\ done' = TRUE /\ UNCHANGED table
 Spec == Init /\ [][Next]_vars
 
